@@ -19,8 +19,9 @@ type fnDecl struct {
 	name       string // as printed: "(*T).M" or "F"
 	strict     bool
 	tr         *bodyTr
-	flags      []bool
-	excReg     map[int]string // parameter index -> reason it may be written/kept (strict mode)
+	wflags     []bool
+	kflags     []bool
+	excReg     map[int]excPerm // parameter index -> what an API function may do with it, and why
 	viewWhy    string
 	helperOnly bool // takes no byte-carrying type itself, only interface values
 	isLit      bool
@@ -54,36 +55,46 @@ func recvNamed(sig *types.Signature) *types.Named {
 	return nt
 }
 
+type excPerm struct {
+	w, k bool
+	why  string
+}
+
 // explicit list: API functions documented to write into, keep, or return a view of caller memory
 var docExceptions = map[string]struct {
 	params []int // callee parameter indices (receiver = 0 for methods)
+	w, k   bool  // may write through them / may keep them
 	view   bool
 	why    string
 }{
-	"(streamingaead/subtle.aesGCMHKDFSegmentEncrypter).EncryptSegmentWithDst": {[]int{1}, true, "implements noncebased's segmentEncrypterWithDst: the result is appended to the caller-supplied dst by contract"},
-	"(streamingaead/subtle.aesGCMHKDFSegmentDecrypter).DecryptSegmentWithDst": {[]int{1}, true, "implements noncebased's segmentDecrypterWithDst: the result is appended to the caller-supplied dst by contract"},
-	"(streamingaead/subtle.aesCTRHMACSegmentEncrypter).EncryptSegmentWithDst": {[]int{1}, true, "implements noncebased's segmentEncrypterWithDst: the result is written into the caller-supplied dst by contract"},
-	"(streamingaead/subtle.aesCTRHMACSegmentDecrypter).DecryptSegmentWithDst": {[]int{1}, true, "implements noncebased's segmentDecrypterWithDst: the result is written into the caller-supplied dst by contract"},
-	"signature/subtle.NewED25519SignerFromPrivateKey":                         {[]int{0}, false, "takes a POINTER to the caller's ed25519.PrivateKey and keeps it: sharing is what the signature says"},
-	"signature/subtle.NewED25519VerifierFromPublicKey":                        {[]int{0}, false, "takes a POINTER to the caller's ed25519.PublicKey and keeps it: sharing is what the signature says"},
+	"(streamingaead/subtle.aesGCMHKDFSegmentEncrypter).EncryptSegmentWithDst": {[]int{1}, true, false, true, "implements noncebased's segmentEncrypterWithDst: the result is appended to the caller-supplied dst by contract"},
+	"(streamingaead/subtle.aesGCMHKDFSegmentDecrypter).DecryptSegmentWithDst": {[]int{1}, true, false, true, "implements noncebased's segmentDecrypterWithDst: the result is appended to the caller-supplied dst by contract"},
+	"(streamingaead/subtle.aesCTRHMACSegmentEncrypter).EncryptSegmentWithDst": {[]int{1}, true, false, true, "implements noncebased's segmentEncrypterWithDst: the result is written into the caller-supplied dst by contract"},
+	"(streamingaead/subtle.aesCTRHMACSegmentDecrypter).DecryptSegmentWithDst": {[]int{1}, true, false, true, "implements noncebased's segmentDecrypterWithDst: the result is written into the caller-supplied dst by contract"},
+	"(*keyset.MemReaderWriter).Read":                                          {[]int{0}, false, true, true, "in-memory keyset.Reader/Writer: it holds the keyset object it was given and hands the same object back - that is its documented purpose"},
+	"(*keyset.MemReaderWriter).ReadEncrypted":                                 {[]int{0}, false, true, true, "in-memory keyset.Reader/Writer: it holds the keyset object it was given and hands the same object back - that is its documented purpose"},
+	"(*keyset.MemReaderWriter).Write":                                         {[]int{0, 1}, false, true, false, "in-memory keyset.Reader/Writer: it holds the keyset object it was given and hands the same object back - that is its documented purpose"},
+	"(*keyset.MemReaderWriter).WriteEncrypted":                                {[]int{0, 1}, false, true, false, "in-memory keyset.Reader/Writer: it holds the keyset object it was given and hands the same object back - that is its documented purpose"},
+	"signature/subtle.NewED25519SignerFromPrivateKey":                         {[]int{0}, false, true, false, "takes a POINTER to the caller's ed25519.PrivateKey and keeps it: sharing is what the signature says"},
+	"signature/subtle.NewED25519VerifierFromPublicKey":                        {[]int{0}, false, true, false, "takes a POINTER to the caller's ed25519.PublicKey and keeps it: sharing is what the signature says"},
 }
 
 func (d *fnDecl) exceptions() {
-	d.excReg = map[int]string{}
+	d.excReg = map[int]excPerm{}
 	sig := d.fn.Type().(*types.Signature)
 	base := 0
 	if sig.Recv() != nil {
 		base = 1
 		if perStreamType(d.p, d.rel, recvNamed(sig)) {
-			d.excReg[0] = "per-stream object (has Write/Read/Close): its buffers are the state of one stream, not of a key, handle or primitive"
+			d.excReg[0] = excPerm{true, true, "per-stream object (has Write/Read/Close): its buffers are the state of one stream, not of a key, handle or primitive"}
 		}
 	}
 	if d.fd.Name.Name == "Read" && sig.Params().Len() == 1 && kindOf(sig.Params().At(0).Type()) == kSlice {
-		d.excReg[base] = "io.Reader contract: Read fills the caller's buffer"
+		d.excReg[base] = excPerm{true, false, "io.Reader contract: Read fills the caller's buffer (it may write it, not keep it)"}
 	}
 	if e, ok := docExceptions[shortKey(d.key)]; ok {
 		for _, p := range e.params {
-			d.excReg[p] = e.why
+			d.excReg[p] = excPerm{e.w, e.k, e.why}
 		}
 		if e.view {
 			d.viewWhy = e.why
@@ -95,12 +106,36 @@ func (d *fnDecl) exceptions() {
 
 func translateBody(d *fnDecl) *bodyTr {
 	t := &bodyTr{p: d.p, fd: d.fd, fn: d.fn, strict: d.strict, viewOK: d.viewWhy != "", regOf: map[types.Object]int{},
-		closures: map[types.Object]*ast.FuncLit{}, tracked: map[types.Object]bool{}}
+		closures: map[types.Object]*ast.FuncLit{}, tracked: map[types.Object]bool{},
+		parent: map[types.Object]types.Object{}, clsSize: map[types.Object]int{}, isParam: map[types.Object]bool{},
+		objRegs: map[int]bool{}, closures0: map[types.Object]*ast.FuncLit{}, paramType: map[int]types.Type{}}
 	sig := d.fn.Type().(*types.Signature)
 	if (sig.TypeParams().Len() > 0 || sig.RecvTypeParams().Len() > 0) && d.strict {
 		// an internal generic helper is translated with its type parameters standing for types that carry
 		// no bytes (every call site is checked to instantiate it that way); an exported one is not
 		t.fail("generic API function")
+		return t
+	}
+	if errs := typeErrors[d.p]; len(errs) > 0 {
+		t.fail("the package has %d type errors (first: %s)", len(errs), errs[0])
+		return t
+	}
+	checkCut := func(tt types.Type) {
+		kindOf(tt)
+		if cutoffTypes[tt] {
+			t.fail("the type %s is nested too deep to decide whether it reaches byte memory", tt.String())
+		}
+	}
+	if sig.Recv() != nil {
+		checkCut(sig.Recv().Type())
+	}
+	for i := 0; i < sig.Params().Len(); i++ {
+		checkCut(sig.Params().At(i).Type())
+	}
+	for i := 0; i < sig.Results().Len(); i++ {
+		checkCut(sig.Results().At(i).Type())
+	}
+	if t.untr != "" {
 		return t
 	}
 	var entry []*node
@@ -129,7 +164,12 @@ func translateBody(d *fnDecl) *bodyTr {
 		r := t.newReg(name)
 		if o != nil {
 			t.regOf[o] = r
+			t.isParam[o] = true
 		}
+		if isObjLike(typ) {
+			t.objRegs[r] = true
+		}
+		t.paramType[r] = typ
 		t.paramReg = append(t.paramReg, r)
 		if k == kArr {
 			t.emit(&node{op: "make", r: r, pos: -1}) // passed by value: the function's own copy
@@ -162,11 +202,12 @@ func translateBody(d *fnDecl) *bodyTr {
 		t.results = append(t.results, sig.Results().At(i))
 	}
 	t.resTrk = make([]bool, len(t.results))
+	var namedRes []types.Object
 	if d.fd.Type.Results != nil {
 		for _, f := range d.fd.Type.Results.List {
 			for _, nm := range f.Names {
 				if o := d.p.info.Defs[nm]; o != nil && nm.Name != "_" && kindOf(o.Type()) != kNone {
-					t.emit(&node{op: "make", r: t.reg(o), pos: -1})
+					namedRes = append(namedRes, o)
 				}
 			}
 		}
@@ -185,58 +226,108 @@ func translateBody(d *fnDecl) *bodyTr {
 			}
 		}
 	}
+	// closure definitions, then the may-alias classes of the object variables
+	ast.Inspect(d.fd.Body, func(n ast.Node) bool {
+		if as, ok := n.(*ast.AssignStmt); ok && len(as.Lhs) == 1 && len(as.Rhs) == 1 {
+			if lit, ok := unparen(as.Rhs[0]).(*ast.FuncLit); ok {
+				if id, ok := as.Lhs[0].(*ast.Ident); ok {
+					if o := d.p.info.Defs[id]; o != nil {
+						t.closures0[o] = lit
+					}
+				}
+			}
+		}
+		return true
+	})
+	t.computeClasses()
+	for i := 0; i < 4; i++ {
+		// objects of whitelisted types are followed only when they were built here, which is known after
+		// the classes are: iterate
+		t.tracked = map[types.Object]bool{}
+		t.computeTracked()
+		before := len(t.parent)
+		t.computeClasses()
+		if len(t.parent) == before {
+			break
+		}
+	}
+	// a class with several members is allocated once, on entry: its register is only ever lowered
+	var roots []types.Object
+	seenRoot := map[types.Object]bool{}
+	for o := range t.parent {
+		r := t.find(o)
+		if !seenRoot[r] && !t.isParam[r] {
+			seenRoot[r] = true
+			roots = append(roots, r)
+		}
+	}
+	sort.Slice(roots, func(i, j int) bool { return roots[i].Pos() < roots[j].Pos() })
+	for _, r := range roots {
+		t.emit(&node{op: "make", r: t.classReg(r), pos: -1})
+	}
+	for _, o := range namedRes {
+		if !isObjLike(o.Type()) || t.singleton(o) {
+			t.emit(&node{op: "make", r: t.reg(o), pos: -1})
+		}
+	}
 	t.computeTracked()
 	t.block(d.fd.Body.List)
-	if t.foreignSeen && t.mutObjArg {
-		// the register of an object built here does not speak for objects the function was handed and
-		// put inside it; a callee that writes through the built object might reach them
-		t.fail("a callee writes through an object built here that may hold objects the function was handed")
+	if t.addrSlice && t.derefAssign {
+		t.fail("takes the address of a byte-slice variable and assigns through a pointer to a slice")
 	}
 	t.body = nSeq(entry)
 	return t
 }
 
 // summarize runs the root-set analysis on a translated body.
-func summarize(d *fnDecl, t *bodyTr) (*summary, []bool, []string) {
+// Returns the summary, the write flags, the keep flags and the diagnostics.
+func summarize(d *fnDecl, t *bodyTr) (*summary, []bool, []bool, []string) {
 	sig := d.fn.Type().(*types.Signature)
 	nparams := len(t.paramReg)
-	s := &summary{key: d.key, nparams: nparams, mut: make([]bool, nparams), keep: make([]bool, nparams), res: make([]resInfo, sig.Results().Len()), ifaceTr: !d.strict}
+	s := &summary{key: d.key, nparams: nparams, mut: make([]bool, nparams), keep: make([]bool, nparams), stores: make([]uint64, nparams),
+		res: make([]resInfo, sig.Results().Len()), ifaceTr: !d.strict, paramReg: t.paramReg}
 	if t.untr != "" {
 		s.untr = t.untr
-		return s, nil, nil
+		return s, nil, nil, nil
 	}
 	nregs := len(t.regNames)
-	a := &analyzer{np: t.np, need: make([]bool, t.np), mut: make([]bool, t.np), keep: make([]bool, t.np)}
-	allowed := make([]bool, t.np)
+	a := &analyzer{np: t.np, mut: make([]bool, t.np), keep: make([]bool, t.np), stored: make([]bool, t.np), links: make([]uint64, t.np)}
+	allowW, allowK := make([]bool, t.np), make([]bool, t.np)
 	if d.strict {
-		a.strictNo = make([]bool, t.np)
-		for i := range a.strictNo {
-			a.strictNo[i] = true
+		a.strictW, a.strictK = make([]bool, t.np), make([]bool, t.np)
+		for i := range a.strictW {
+			a.strictW[i], a.strictK[i] = true, true
 		}
-		for pi := range d.excReg {
+		for pi, e := range d.excReg {
 			if pi < len(t.paramReg) && t.paramReg[pi] >= 0 {
-				allowed[t.paramReg[pi]] = true
-				a.strictNo[t.paramReg[pi]] = false
+				r := t.paramReg[pi]
+				if e.w {
+					allowW[r], a.strictW[r] = true, false
+				}
+				if e.k {
+					allowK[r], a.strictK[r] = true, false
+				}
 			}
 		}
 	}
 	for round := 0; round < 8; round++ {
-		old := append([]bool(nil), a.need...)
+		oldK := append([]bool(nil), a.keep...)
 		a.resRoots = make([]uint64, sig.Results().Len())
 		a.resSeen = make([]bool, sig.Results().Len())
+		a.links = make([]uint64, t.np)
 		a.diag = nil
 		st := make(astate, nregs)
 		for i := range st {
-			if i < t.np && i < 62 {
-				st[i] = 1 << uint(i)
+			if i < t.np && i < 61 {
+				st[i] = 1<<uint(i) | sharedBit
 			} else {
-				st[i] = opaqueBit
+				st[i] = opaqueBit | sharedBit
 			}
 		}
 		a.run(t.body, st)
 		same := true
-		for i := range old {
-			if old[i] != a.need[i] {
+		for i := range oldK {
+			if oldK[i] != a.keep[i] {
 				same = false
 			}
 		}
@@ -251,9 +342,35 @@ func summarize(d *fnDecl, t *bodyTr) (*summary, []bool, []string) {
 			regToParam[r] = pi
 		}
 	}
+	toParams := func(rs uint64) uint64 {
+		var out uint64
+		for r := 0; r < t.np && r < 61; r++ {
+			if rs&(1<<uint(r)) != 0 {
+				out |= 1 << uint(regToParam[r])
+			}
+		}
+		return out | rs&opaqueBit
+	}
+	wflags, kflags := make([]bool, nregs), make([]bool, nregs)
 	for r := 0; r < t.np; r++ {
 		pi := regToParam[r]
 		s.mut[pi], s.keep[pi] = a.mut[r], a.keep[r]
+		s.stores[pi] = toParams(a.links[r])
+		if d.strict {
+			// an exception is recorded (and the flag set) only where the body makes use of it
+			wflags[r], kflags[r] = allowW[r] && a.mut[r], allowK[r] && a.keep[r]
+		} else {
+			wflags[r], kflags[r] = a.mut[r], a.keep[r]
+		}
+		// a type through whose values some function writes or stores is not immutable
+		if a.mut[r] || a.stored[r] {
+			if tk := typeNameKey(t.paramType[r]); tk != "" && immutableCand[tk] {
+				if _, done := mutableType[tk]; !done {
+					mutableType[tk] = shortKey(d.key)
+					whitelistChanged = true
+				}
+			}
+		}
 	}
 	for i := range s.res {
 		k := kindOf(sig.Results().At(i).Type())
@@ -263,26 +380,23 @@ func summarize(d *fnDecl, t *bodyTr) (*summary, []bool, []string) {
 		}
 		s.res[i].seen = a.resSeen[i]
 		s.res[i].tracked = t.resTrk[i]
-		var roots uint64
-		for r := 0; r < t.np && r < 62; r++ {
+		s.res[i].roots = toParams(a.resRoots[i])
+		// a type one of whose values hands out (a view of) what it holds is not encapsulated: not immutable
+		for r := 0; r < t.np && r < 61; r++ {
 			if a.resRoots[i]&(1<<uint(r)) != 0 {
-				roots |= 1 << uint(regToParam[r])
+				if tk := typeNameKey(t.paramType[r]); tk != "" && immutableCand[tk] {
+					if _, done := mutableType[tk]; !done {
+						mutableType[tk] = shortKey(d.key) + " (hands out what the object holds)"
+						whitelistChanged = true
+					}
+				}
 			}
 		}
-		roots |= a.resRoots[i] & opaqueBit
-		s.res[i].roots = roots
 	}
-	flags := make([]bool, nregs)
-	for r := 0; r < t.np; r++ {
-		if d.strict {
-			// an exception is recorded (and the flag set) only where the body makes use of it
-			flags[r] = allowed[r] && a.need[r]
-		} else {
-			flags[r] = a.need[r]
-		}
-	}
-	return s, flags, a.diag
+	return s, wflags, kflags, a.diag
 }
+
+var whitelistChanged bool
 
 // ---- the whole library -----------------------------------------------------------------------------
 
@@ -313,6 +427,8 @@ func hasIfaceParam(sig *types.Signature) bool {
 	return false
 }
 
+var relOfPkg = map[*pkgInfo]string{}
+
 func scanBodies(root string) []*fnDecl {
 	var decls []*fnDecl
 	var pkgsSeen []*pkgInfo
@@ -328,6 +444,7 @@ func scanBodies(root string) []*fnDecl {
 		}
 		localPath[p.pkg] = full
 		pkgsSeen = append(pkgsSeen, p)
+		relOfPkg[p] = rel
 		internalPkg := strings.HasPrefix(rel, "internal/") || strings.Contains(rel, "/internal/") || rel == "internal"
 		for _, file := range p.files {
 			for _, dd := range file.Decls {
@@ -358,6 +475,10 @@ func scanBodies(root string) []*fnDecl {
 	for _, p := range pkgsSeen {
 		markIfaceConversions(p)
 		collectFuncValues(p)
+		registerTypeCandidates(p, relOfPkg[p])
+		if os.Getenv("C19_DEBUG") != "" && len(typeErrors[p]) > 0 {
+			fmt.Fprintf(os.Stderr, "TYPEERR %s: %d errors, first: %s\n", relOfPkg[p], len(typeErrors[p]), typeErrors[p][0])
+		}
 	}
 	// function literals that capture no byte variable are functions of their own (internal helpers)
 	for _, l := range litDecls {
@@ -407,15 +528,16 @@ func scanBodies(root string) []*fnDecl {
 		summaries[d.key] = &summary{key: d.key, nparams: np, mut: make([]bool, np), keep: make([]bool, np),
 			res: make([]resInfo, d.fn.Type().(*types.Signature).Results().Len()), ifaceTr: !d.strict}
 	}
-	for round := 0; round < 20; round++ {
+	for round := 0; round < 30; round++ {
 		changed := 0
+		whitelistChanged = false
 		for _, d := range out {
 			if summaries[d.key].untr != "" {
 				continue // once untranslated, always
 			}
 			t := translateBody(d)
-			s, flags, diag := summarize(d, t)
-			d.tr, d.flags, d.diag = t, flags, diag
+			s, wf, kf, diag := summarize(d, t)
+			d.tr, d.wflags, d.kflags, d.diag = t, wf, kf, diag
 			if !s.equal(summaries[d.key]) {
 				summaries[d.key] = s
 				changed++
@@ -424,7 +546,7 @@ func scanBodies(root string) []*fnDecl {
 		if os.Getenv("C19_DEBUG") != "" {
 			fmt.Fprintf(os.Stderr, "bodies: round %d, %d summaries changed\n", round, changed)
 		}
-		if changed == 0 {
+		if changed == 0 && !whitelistChanged {
 			break
 		}
 	}
@@ -433,20 +555,47 @@ func scanBodies(root string) []*fnDecl {
 
 func coqStr(s string) string { return "\"" + strings.ReplaceAll(s, "\"", "'") + "\"" }
 
+// tableIndex: position of a translated function in the emitted table (for call records)
+var tableIndex = map[string]int{}
+var tableDecl = map[string]*fnDecl{}
+
+func flagList(fs []bool) string {
+	var fl []string
+	for _, f := range fs {
+		if f {
+			fl = append(fl, "T")
+		} else {
+			fl = append(fl, "F")
+		}
+	}
+	return strings.Join(fl, "; ")
+}
+
 func bodiesV(decls []*fnDecl) string {
 	var b strings.Builder
 	b.WriteString("(* C19: the slice-relevant behaviour of the BODY of every function of the library's non-test packages\n" +
 		"   that takes, keeps or returns byte memory, as a program of model/HeapProg.v (see\n" +
 		"   harness/cmd/translate/bodies_*.go).  Entry: package, function, API? (exported function of a\n" +
-		"   non-internal package), number of registers, initial ownership flags of the parameter registers\n" +
-		"   (API: all false except the documented exceptions; internal helper: the inferred contract = the\n" +
-		"   parameters it writes through or keeps, which every call site must own), the body. *)\n")
+		"   non-internal package), number of registers, number of parameter registers, the parameters the function may\n" +
+		"   WRITE THROUGH and those it may KEEP (API: none except the documented exceptions; internal helper: the\n" +
+		"   inferred contract, which every call site must meet with slices the caller owns - checked in Coq on the call\n" +
+		"   records SCall), the registers that stand for objects (one per may-alias class; never copied), the named\n" +
+		"   types of the object parameters, the body. *)\n")
 	b.WriteString("From Coq Require Import List String.\nFrom Tink Require Import Heap HeapProg.\nImport ListNotations.\nOpen Scope string_scope.\n")
-	b.WriteString("Record fn_body := mkBody { fb_pkg : string; fb_fn : string; fb_api : bool; fb_nregs : nat; fb_flags : list bool; fb_prog : stmt }.\n")
+	b.WriteString("Record fn_body := mkBody { fb_pkg : string; fb_fn : string; fb_api : bool; fb_nregs : nat; fb_np : nat;\n" +
+		"  fb_wflags : list bool; fb_kflags : list bool; fb_objs : list nat; fb_ptypes : list (nat * string); fb_prog : stmt }.\n")
 	b.WriteString("Definition T := true.\nDefinition F := false.\n")
-	nTr, nUn, nInstr, nApi := 0, 0, 0, 0
+	nTr, nUn, nInstr, nApi, nCalls, nFail := 0, 0, 0, 0, 0, 0
 	var untr [][3]string
 	var exc [][3]string
+	tableIndex = map[string]int{}
+	tableDecl = map[string]*fnDecl{}
+	for _, d := range decls {
+		if d.tr != nil && d.tr.untr == "" {
+			tableIndex[d.key] = len(tableIndex)
+			tableDecl[d.key] = d
+		}
+	}
 	b.WriteString("Definition c19_bodies : list fn_body := [")
 	first := true
 	for _, d := range decls {
@@ -464,18 +613,14 @@ func bodiesV(decls []*fnDecl) string {
 			nApi++
 		}
 		nInstr += d.tr.body.count()
+		nCalls += d.tr.body.calls()
+		if d.tr.body.canFail() {
+			nFail++
+		}
 		if !first {
 			b.WriteString(";")
 		}
 		first = false
-		var fl []string
-		for _, f := range d.flags {
-			if f {
-				fl = append(fl, "T")
-			} else {
-				fl = append(fl, "F")
-			}
-		}
 		api := "false"
 		if d.strict {
 			api = "true"
@@ -486,8 +631,20 @@ func bodiesV(decls []*fnDecl) string {
 				nm = append(nm, fmt.Sprintf("%d=%s", r, n))
 			}
 		}
-		fmt.Fprintf(&b, "\n  (* line %d; registers: %s *)", d.p.fset.Position(d.fd.Pos()).Line, strings.ReplaceAll(strings.Join(nm, " "), "*)", "* )"))
-		fmt.Fprintf(&b, "\n  mkBody %s %s %s %d [%s]\n    (", coqStr(d.rel), coqStr(d.name), api, len(d.flags), strings.Join(fl, "; "))
+		var objs []int
+		for r := range d.tr.objRegs {
+			objs = append(objs, r)
+		}
+		sort.Ints(objs)
+		var pts []string
+		for r := 0; r < d.tr.np; r++ {
+			if tk := typeNameKey(d.tr.paramType[r]); tk != "" && isObjLike(d.tr.paramType[r]) {
+				pts = append(pts, fmt.Sprintf("(%d, %s)", r, coqStr(shortKey(tk))))
+			}
+		}
+		fmt.Fprintf(&b, "\n  (* #%d, line %d; registers: %s *)", tableIndex[d.key], d.p.fset.Position(d.fd.Pos()).Line, strings.ReplaceAll(strings.Join(nm, " "), "*)", "* )"))
+		fmt.Fprintf(&b, "\n  mkBody %s %s %s %d %d [%s] [%s] [%s] [%s]\n    (", coqStr(d.rel), coqStr(d.name), api, len(d.wflags), d.tr.np,
+			flagList(d.wflags), flagList(d.kflags), joinInts(objs), strings.Join(pts, "; "))
 		d.tr.body.coq(&b)
 		b.WriteString(")")
 		if d.strict {
@@ -497,8 +654,17 @@ func bodiesV(decls []*fnDecl) string {
 			}
 			sort.Ints(pis)
 			for _, pi := range pis {
-				if pi < len(d.tr.paramReg) && d.tr.paramReg[pi] >= 0 && d.flags[d.tr.paramReg[pi]] {
-					exc = append(exc, [3]string{d.rel, d.name, fmt.Sprintf("register %d (%s): %s", d.tr.paramReg[pi], d.tr.regNames[d.tr.paramReg[pi]], d.excReg[pi])})
+				if pi < len(d.tr.paramReg) && d.tr.paramReg[pi] >= 0 {
+					r := d.tr.paramReg[pi]
+					if d.wflags[r] || d.kflags[r] {
+						what := "may be written"
+						if d.wflags[r] && d.kflags[r] {
+							what = "may be written and kept"
+						} else if d.kflags[r] {
+							what = "may be kept"
+						}
+						exc = append(exc, [3]string{d.rel, d.name, fmt.Sprintf("register %d (%s) %s: %s", r, d.tr.regNames[r], what, d.excReg[pi].why)})
+					}
 				}
 			}
 			if d.viewWhy != "" {
@@ -524,6 +690,17 @@ func bodiesV(decls []*fnDecl) string {
 	list3("c19_body_untranslated", untr)
 	b.WriteString("(* API functions documented to write into / keep / return a view of memory they do not own *)\n")
 	list3("c19_body_exceptions", exc)
+	b.WriteString("(* WHITELIST: an object of one of these types that the function was handed may be stored, returned or passed on\n" +
+		"   as a whole without counting as an escape of caller memory (its byte fields, when selected, are still memory the\n" +
+		"   function does not own).  Checked on the table: no entry writes through or stores into a parameter of such a type. *)\n")
+	b.WriteString("Definition c19_immutable_types : list (string * string) := [")
+	for i, u := range immutableList() {
+		if i > 0 {
+			b.WriteString(";")
+		}
+		fmt.Fprintf(&b, "\n  (%s, %s)", coqStr(u[0]), coqStr(u[1]))
+	}
+	b.WriteString("].\n")
 	nHelp, nLit := 0, 0
 	for _, d := range decls {
 		if d.isLit {
@@ -541,6 +718,9 @@ func bodiesV(decls []*fnDecl) string {
 	fmt.Fprintf(&b, "Definition c19_bodies_translated : nat := %d.\n", nTr)
 	fmt.Fprintf(&b, "Definition c19_bodies_api : nat := %d.\n", nApi)
 	fmt.Fprintf(&b, "Definition c19_bodies_instructions : nat := %d.\n", nInstr)
+	fmt.Fprintf(&b, "Definition c19_bodies_call_records : nat := %d.\n", nCalls)
+	b.WriteString("(* entries with at least one statement on which the ownership analysis can fail (a write, an append, a store, an escape) *)\n")
+	fmt.Fprintf(&b, "Definition c19_bodies_that_can_fail : nat := %d.\n", nFail)
 	return b.String()
 }
 
@@ -585,5 +765,16 @@ func debugSummaries(pat string) {
 	for _, k := range ks {
 		s := summaries[k]
 		fmt.Fprintf(os.Stderr, "SUM %s mut=%v keep=%v res=%v untr=%q\n", shortKey(k), s.mut, s.keep, s.res, s.untr)
+	}
+}
+
+func debugMutable() {
+	var ks []string
+	for k, v := range mutableType {
+		ks = append(ks, shortKey(k)+" <- "+v)
+	}
+	sort.Strings(ks)
+	for _, k := range ks {
+		fmt.Fprintln(os.Stderr, "MUTABLE", k)
 	}
 }
